@@ -27,4 +27,4 @@ let run line =
       (string_of_z s.Breaker.fail) (string_of_z s.Breaker.last) spec_agrees
   | _ -> failwith "c20: bad line"
 
-let () = register "c20" run
+let () = register "main" run
